@@ -47,6 +47,7 @@ typedef struct emitInfo {
 	FileNameList	flist;
 	Bool		isAXLmain; /* Is the generated file invoking "entry"? */
 	Bool 		isStdIn;
+	String		idName;   /* Id of a saved unit, if the input is one. */
 } *EmitInfo;
 
 extern EmitInfo emitInfoNew		(FileName srcfn);
@@ -71,6 +72,7 @@ extern Bool	emitIsGeneratedFile 	(FileName);	/* Examines contents */
 
 extern String	emitGetFileIdName	(EmitInfo);
 extern void	emitSetFileIdName	(String);
+extern void	emitInfoSetIdName	(EmitInfo, String);
 extern void	emitSetFileIdPrefix	(String);
 
 /*
